@@ -76,6 +76,53 @@ def run(rep, tier, seed, replay=None):
             nviol += 1
         if nviol > 10:
             break
+    # ---- datasets with a history: a dataset DECODED from a compressed message (it carries the COMPRESSED flag of that
+    # message) gets further subsets - of the same or of a different replication structure - and is encoded with compression
+    # requested: the result must decode to all subsets, falling back to an uncompressed message when the structure differs.
+    if not rep.violations:
+        al, ameta = [], []
+        if replay and replay.get("append_line"):
+            al = [replay["append_line"]]; ameta = [replay["append_case"]]
+        elif not replay:
+            for i, c in enumerate(cases):
+                if len(al) >= (60 if tier == "quick" else 600) or i >= len(h1):
+                    break
+                if h1[i].get("rc") != "0" or h1[i].get("comp") != "1":
+                    continue
+                try:
+                    extra = gen.gen_dataset(rng, ctx.T, c["ed"], c["tmpl"], rng.choice([1, 2]))
+                except gen.Reject:
+                    continue
+                toks = " | ".join(" ".join(gen.token(v) for _, v in s_) for s_ in extra) + " |"
+                al.append("A 1 %s %d %s" % (h1[i]["msg"], len(extra), toks))
+                ameta.append(dict(ed=c["ed"], tmpl=c["tmpl"], subsets=c["subsets"] + extra, same=False))
+        ao = ctx.run_c(al)
+        if len(ao) < len(al):
+            rep.violation("C02: the library crashed / was stopped by the sanitizer encoding a decoded compressed dataset that got further subsets: %s  [case: %s]" % (
+                ctx.sanitizer_summary(), al[len(ao)][:300]), {"kind": "codec", "append_line": al[len(ao)], "append_case": ameta[len(ao)]})
+        ah = [codec.parse_c_listing(o)[0] for o in ao]
+        ad = ctx.run_c(["D " + (h.get("msg") or "00") for h in ah])
+        for line, c2, h, dd in zip(al, ameta, ah, ad):
+            rep.count(("append", line))
+            same2 = codecrun.same_structure(c2)
+            feat["decoded_then_extended_" + ("same_structure" if same2 else "different_structure")] += 1
+            robj = {"kind": "codec", "append_line": line, "append_case": c2, "result": dd[:3000]}
+            fail = None
+            if h.get("rc") == "-3":
+                fail = "the encoder terminated the process (exit) on a decoded compressed dataset that got a further subset"
+            elif h.get("rc") != "0":
+                fail = "encoding a decoded compressed dataset that got a further subset failed (rc=%s)" % h.get("rc")
+            else:
+                dh, dsubs = codec.parse_c_listing(dd)
+                if not same2 and h.get("comp") == "1":
+                    fail = "subsets of different structure were emitted as a compressed message (dataset decoded from a compressed message, then extended)"
+                elif dh.get("rc") != "0" or dh.get("invalid") != "0":
+                    fail = "the message does not decode cleanly (rc=%s invalid=%s)" % (dh.get("rc"), dh.get("invalid"))
+                else:
+                    fail = codecrun.check_listing_against_intent(c2, dsubs)
+            if fail:
+                rep.violation("C02: %s  [case: %s]" % (fail, line[:300]), robj)
+                break
     if not proved and not rep.violations:
         rep.violation("C02: proof obligations no longer check and the correspondence run found no failing input", getattr(rep, "proof_broken", {}), no_input=True)
     rep.cov["traces_validated_against_impl"] = len(cases)
